@@ -35,10 +35,11 @@ type limCase struct {
 	LaterFile         bool // file mode: the limit is crossed in a later stage
 	MaxDur            time.Duration
 	FailSetupHandleAt uint64 // iteration id that calls Fail on the scenario-level handle (0 = never)
+	ShortPlan         bool   // staged/file: the trigger's own duration (1.2 s) is shorter than max-duration (8 s)
 }
 
 func (c limCase) desc() string {
-	s := fmt.Sprintf("%s N=%d c=%d per=%d/%dms dist=%s body=%dus failEvery=%d failSetupHandleAt=%d flags=%v", c.Mode, c.N, c.Conc, c.PerTick, c.TickMs, c.Dist, c.BodyUs, c.FailEvery, c.FailSetupHandleAt, c.Flags)
+	s := fmt.Sprintf("%s N=%d c=%d per=%d/%dms dist=%s body=%dus failEvery=%d failSetupHandleAt=%d shortPlan=%v flags=%v", c.Mode, c.N, c.Conc, c.PerTick, c.TickMs, c.Dist, c.BodyUs, c.FailEvery, c.FailSetupHandleAt, c.ShortPlan, c.Flags)
 	if c.YAML != "" {
 		s += " yaml=" + strings.ReplaceAll(c.YAML, "\n", "|")
 	}
@@ -87,12 +88,20 @@ func genCase(t *rapid.T) limCase {
 		c.MaxDur = time.Duration(rapid.IntRange(60, 250).Draw(t, "durationMs")) * time.Millisecond
 	}
 	rate := fmt.Sprintf("%d/%dms", c.PerTick, c.TickMs)
+	planLen := "10s"
+	if limited && (c.Mode == "staged" || c.Mode == "file") && rapid.IntRange(0, 2).Draw(t, "shortPlan") == 0 {
+		// the trigger ends by itself long before max-duration: the limit must hold all the same. The
+		// trigger may end before the limit is reached, so only "never more than N" is asserted.
+		c.ShortPlan = true
+		c.Keeps = false
+		planLen = "1200ms"
+	}
 	switch c.Mode {
 	case "constant":
 		c.Flags["rate"] = rate
 		c.Flags["distribution"] = c.Dist
 	case "staged":
-		c.Flags["stages"] = fmt.Sprintf("0s:%d,10s:%d", c.PerTick, c.PerTick)
+		c.Flags["stages"] = fmt.Sprintf("0s:%d,%s:%d", c.PerTick, planLen, c.PerTick)
 		c.Flags["iterationFrequency"] = fmt.Sprintf("%dms", c.TickMs)
 		c.Flags["distribution"] = c.Dist
 	case "ramp":
@@ -119,7 +128,7 @@ func genCase(t *rapid.T) limCase {
 		}
 		for i := 0; i < nst; i++ {
 			last := i == nst-1
-			d := "10s"
+			d := planLen
 			if !last {
 				// an early stage that certainly cannot reach the limit: one tick of fewer than N/3 requests
 				d = fmt.Sprintf("%dms", c.TickMs+30)
@@ -219,6 +228,9 @@ func TestProp_LimitIsExact(t *testing.T) {
 		}
 		if c.FailSetupHandleAt != 0 {
 			cls = append(cls, "setup-handle-failed-mid-run")
+		}
+		if c.ShortPlan {
+			cls = append(cls, "trigger-ends-before-max-duration")
 		}
 		stats.Case("runs", c.desc(), nontrivial, cls, func() any {
 			return map[string]any{"case": c.desc(), "invocations": inv, "elapsed_ms": elapsed.Milliseconds()}
